@@ -1,9 +1,9 @@
 (* C11 — Thread and process modes change scheduling, not guarantees (partial: that CPython's executors stay inside the
    permutation envelope is trusted and exercised by search only). *)
-From Coq Require Import List Arith Bool Permutation.
+From Coq Require Import List Arith Bool Permutation ZArith.
 From PV Require Import Xnum Select PyLib Select_proofs Pool.
 From PVGen Require Import GenSelect GenHyper.
-From PVBridge Require Import SelectBridge C16Main.
+From PVBridge Require Import SelectBridge C16Main PoolExample.
 
 (* helpers.get_pool_executor / get_pool_results and their two call sites have exactly the modelled shape *)
 Theorem C11_pool_regenerated : gen_pool_shape = true.
@@ -57,3 +57,15 @@ Print Assumptions C11_no_loss_no_dup.
 Print Assumptions C11_pooled_initial_population.
 Print Assumptions C11_worker_draws_duplicate.
 Print Assumptions C11_pooled_greedy.
+
+(* non-vacuity: a completion order that is not the submission order (`rev`) meets the permutation hypothesis; under it the REGENERATED pooled initialisation and pooled
+   greedy selection return their agents in another order than the serial mode (same agents), and a too-short challenger list is the error branch *)
+Theorem C11_hypotheses_satisfiable :
+  (forall l : list Z, Permutation l (rev l)) /\ rev (1 :: 2 :: 3 :: nil)%Z <> (1 :: 2 :: 3 :: nil)%Z /\
+  gen_init_population Z (@rev Z) (fun k => Z.of_nat k) nil 3 THREAD = (2 :: 1 :: 0 :: nil)%Z /\
+  gen_init_population Z (@rev Z) (fun k => Z.of_nat k) nil 3 SERIAL = (0 :: 1 :: 2 :: nil)%Z /\
+  gen_greedy_select_population Z (fun z => XFin z) (fun z => z) (@rev Z) (5 :: 1 :: 3 :: nil)%Z (4 :: 2 :: 0 :: nil)%Z THREAD = Some (4 :: 2 :: 0 :: nil)%Z /\
+  gen_greedy_select_population Z (fun z => XFin z) (fun z => z) (@rev Z) (5 :: 1 :: 3 :: nil)%Z (4 :: 2 :: 0 :: nil)%Z SERIAL = Some (0 :: 2 :: 4 :: nil)%Z /\
+  gen_greedy_select_population Z (fun z => XFin z) (fun z => z) (@rev Z) (5 :: 1 :: 3 :: nil)%Z (4 :: 2 :: nil)%Z THREAD = None.
+Proof. exact pool_hypotheses_satisfiable. Qed.
+Print Assumptions C11_hypotheses_satisfiable.
